@@ -12,6 +12,9 @@ var verifHarnesses = map[string]func(){
 	"VerifC07Walk": VerifC07Walk,
 	"VerifC05Walk": VerifC05Walk,
 	"VerifC12Walk": VerifC12Walk,
+	"VerifC13Syntax": VerifC13Syntax,
+	"VerifC13Idempotent": VerifC13Idempotent,
+	"VerifC13Reject": VerifC13Reject,
 	"VerifC12Race": VerifC12Race,
 	"VerifC12Updatable": VerifC12Updatable,
 	"VerifC05Split": VerifC05Split,
